@@ -1078,6 +1078,29 @@ func (m *Nitro) StoreToDisk(dir string, snap *Snapshot, concurr int, itmCallback
 }
 
 // LoadFromDisk restores Nitro from a disk backup
+// releaseStore gives every node and item of a structure nobody else uses, and
+// its sentinels, back to the memory manager.
+func (m *Nitro) releaseStore(store *skiplist.Skiplist) {
+	buf := store.MakeBuf()
+	defer store.FreeBuf(buf)
+
+	iter := store.NewIterator(m.iterCmp, buf)
+	defer iter.Close()
+
+	var nodes []*skiplist.Node
+	for iter.SeekFirst(); iter.Valid(); iter.Next() {
+		nodes = append(nodes, iter.GetNode())
+	}
+
+	for _, n := range nodes {
+		m.freeItem((*Item)(n.Item()))
+		store.FreeNode(n, &store.Stats)
+	}
+
+	store.FreeNode(store.HeadNode(), &store.Stats)
+	store.FreeNode(store.TailNode(), &store.Stats)
+}
+
 func (m *Nitro) LoadFromDisk(dir string, concurr int, callb ItemCallback) (*Snapshot, error) {
 	var wg sync.WaitGroup
 	var files []string
@@ -1144,6 +1167,22 @@ func (m *Nitro) LoadFromDisk(dir string, concurr int, callb ItemCallback) (*Snap
 		}
 	}
 
+	// A load that fails before the new structure is installed has to give
+	// back what it has read so far (and the builder's sentinels) itself:
+	// Close() only knows about the structure the instance ends up with.
+	abandon := func(err error) (*Snapshot, error) {
+		if m.useMemoryMgmt {
+			var filled []*skiplist.Segment
+			for _, seg := range segments {
+				if seg != nil {
+					filled = append(filled, seg)
+				}
+			}
+			m.releaseStore(b.Assemble(filled...))
+		}
+		return nil, err
+	}
+
 	defer func() {
 		for _, r := range readers {
 			if r != nil {
@@ -1158,7 +1197,7 @@ func (m *Nitro) LoadFromDisk(dir string, concurr int, callb ItemCallback) (*Snap
 		r := m.newFileReader(m.fileType, version)
 		datafile := filepath.Join(datadir, file)
 		if err := r.Open(datafile); err != nil {
-			return nil, err
+			return abandon(err)
 		}
 
 		readers[i] = r
@@ -1178,6 +1217,10 @@ func (m *Nitro) LoadFromDisk(dir string, concurr int, callb ItemCallback) (*Snap
 						// Record the error and go on to the next shard: the
 						// producer blocks until every shard has been taken.
 						errors[shard] = err
+						if itm != nil {
+							// partially read item
+							m.freeItem(itm)
+						}
 						break loop
 					}
 
@@ -1197,13 +1240,13 @@ func (m *Nitro) LoadFromDisk(dir string, concurr int, callb ItemCallback) (*Snap
 	wg.Wait()
 	for i, rdr := range readers {
 		if verify && checksumFailed(checksums[i], rdr.Checksum()) {
-			return nil, ErrCorruptSnapshot
+			return abandon(ErrCorruptSnapshot)
 		}
 	}
 
 	for _, err := range errors {
 		if err != nil {
-			return nil, err
+			return abandon(err)
 		}
 	}
 
@@ -1282,6 +1325,10 @@ func (m *Nitro) LoadFromDisk(dir string, concurr int, callb ItemCallback) (*Snap
 						itm, err := r.ReadItem()
 						if err != nil {
 							errors[shard] = err
+							if itm != nil {
+								// partially read item
+								m.freeItem(itm)
+							}
 							break loop
 						}
 
